@@ -74,6 +74,29 @@ class SimTime:
     def ctime(self, t=None):
         return 'T%r' % (t,)
 
+    # The rest of the clock interface, with a simulated zone: the machine's local time is UTC + tz.
+    # (A caller who mixes gmtime() with mktime() is off by tz; the simulator makes that visible instead
+    # of depending on the TZ of the box the checks run on.)
+    tz = -5 * 3600.0
+
+    def gmtime(self, t=None):
+        import time as _t
+        return _t.gmtime(self.time() if t is None else t)
+
+    def localtime(self, t=None):
+        import time as _t
+        return _t.gmtime((self.time() if t is None else t) + self.tz)
+
+    def mktime(self, tm):
+        import calendar
+        return float(calendar.timegm(tm)) - self.tz
+
+    def monotonic(self):
+        return (self.queue.now if self.queue is not None else 0.0)
+
+    def time_ns(self):
+        return int(self.time() * 1e9)
+
     def sleep(self, s):
         raise RuntimeError('HARNESS: library slept')
 
